@@ -134,7 +134,8 @@ def with_core(cl: dict) -> Tuple[List[dict], List[int]]:
 
 
 def is_core_name(f: dict) -> bool:
-    return posixpath.basename(f["path"]) == "core_defs.yaml"
+    """Parser.is_core_file: the package's own core_defs.yaml (a user file of that name is not)"""
+    return bool(f.get("is_core")) and posixpath.basename(f["path"]) == "core_defs.yaml"
 
 
 # ---- Coq rendering -----------------------------------------------------------------
